@@ -3666,6 +3666,13 @@ class CacheDataset(Dataset):
             item = self.keys().index(item)
 
         if isinstance(item, numbers.Integral):
+            if item < 0:
+                # Normalize the index, so that e.g. ds[-1] and ds[len(ds) - 1]
+                # share one cache entry.
+                _item = item
+                item = item + len(self)
+                if item < 0:
+                    raise IndexError(_item)
             try:
                 return self._cache[item]
             except KeyError:
